@@ -335,6 +335,61 @@ def _only_continue_exits(an, fx, nev):
 
 
 # ---------------------------------------------------------------------------
+def _flat_index_impls_ok(crate, S):
+    """Index<usize> / IndexMut<usize> of the matrix address dist[i]"""
+    prog = crate.prog
+    n = 0
+    for im in prog.impls:
+        if im["trait"] in ("core::ops::index::Index", "core::ops::index::IndexMut") and im["self"].get("path") == S:
+            for it in im["items"]:
+                if it["name"] in ("index", "index_mut") and it["path"] in prog.fns:
+                    f = prog.fns[it["path"]]
+                    if f["locals"][2]["ty"].get("s") != "usize":
+                        continue
+                    n += 1
+                    an = crate.an(it["path"])
+                    # the returned reference is an element of A1.dist at index arg 2 (whatever the spelling)
+                    rets = [ev for ev in an.events if ev["k"] == "return"]
+                    good = False
+                    if len(rets) == 1:
+                        c, i = elem_access(rets[0]["val"])
+                        if c is None and rets[0]["val"][0] == "phi":
+                            for pb, _ in an.cfg.pred[rets[0]["val"][1]]:
+                                c, i = elem_access(an.var_term(an.ver_out[pb], rets[0]["val"][2]))
+                                if c is not None:
+                                    break
+                        good = c is not None and region_of_container(c) == "A1.dist" and i == ("arg", 2)
+                    if not good:
+                        return False
+    return n >= 1
+
+
+def is_row_access(t, dist_region_suffix=".dist"):
+    """u when t is dist[u * order ..][.. order] or dist[u * order .. u * order + order] (row u of the matrix)"""
+    IDX = "core::ops::index::Index::index"
+    if not (t[0] == "call" and t[1] in (IDX, "core::ops::index::IndexMut::index_mut") and len(t[3]) == 2):
+        return None
+    recv, rng = t[3]
+    if rng[0] == "agg" and rng[1] == "adt" and rng[2][1] == "RangeTo" and recv[0] == "call" and recv[1] == t[1] and len(recv[3]) == 2:
+        base, r0 = recv[3]
+        b = strip_ref(base)
+        if r0[0] == "agg" and r0[2][1] == "RangeFrom" and b[0] == "at" and b[1].endswith(dist_region_suffix):
+            n = rng[3][0]
+            st = r0[3][0]
+            if n[0] == "mem" and n[1].endswith(".order") and st[0] == "bin" and st[1] == "Mul" and n in (st[2], st[3]):
+                return st[3] if st[2] == n else st[2]
+    if rng[0] == "agg" and rng[1] == "adt" and rng[2][1] == "Range":
+        b = strip_ref(recv)
+        lo, hi = rng[3]
+        if b[0] == "at" and b[1].endswith(dist_region_suffix) and lo[0] == "bin" and lo[1] == "Mul":
+            for u, n in ((lo[2], lo[3]), (lo[3], lo[2])):
+                if n[0] == "mem" and n[1].endswith(".order"):
+                    if hi in (("bin", "Add", lo, n), ("bin", "Add", n, lo), ("bin", "Mul", ("bin", "Add", u, ("const", "usize", 1)), n),
+                              ("bin", "Mul", n, ("bin", "Add", u, ("const", "usize", 1))), ("bin", "Mul", ("bin", "Add", ("const", "usize", 1), u), n)):
+                        return u
+    return None
+
+
 def rule_layout(crate, prop, tier):
     o = Obl("LAYOUT")
     prog = crate.prog
@@ -356,8 +411,12 @@ def rule_layout(crate, prop, tier):
                     if summ and summ[0][0] == "call" and len(summ[0][3]) == 2:
                         idx = summ[0][3][1]
                         ab = rowmajor(idx, ("mem", "A1.order", ("e",), None))
-                        ok = ab == (("field", ("arg", 2), "0"), ("field", ("arg", 2), "1")) and \
-                            summ[0][3][0][0] == "at" and summ[0][3][0][1] == "A1.dist"
+                        recv = summ[0][3][0]
+                        direct = recv[0] == "at" and recv[1] == "A1.dist"
+                        # or through the matrix's own Index<usize> / IndexMut<usize>, which index `dist`
+                        via_self = recv[0] == "at" and recv[1] == "A1" and summ[0][2] and summ[0][2][0].startswith("algo::distance_matrix::DistanceMatrix") \
+                            and _flat_index_impls_ok(crate, S)
+                        ok = ab == (("field", ("arg", 2), "0"), ("field", ("arg", 2), "1")) and (direct or via_self)
                     o.check(ok, who, "row-major-index", "(u, v) is not addressed as dist[u * order + v]", f["span"])
     o.check(n >= 2, "DistanceMatrix", "index-impls", "Index/IndexMut<(usize, usize)> not found")
     # eccentricities: rows are chunks(order)
@@ -369,9 +428,31 @@ def rule_layout(crate, prop, tier):
             t = summ[0]
             while t[0] == "call" and t[1].startswith("core::iter::traits::iterator::Iterator::") and t[3]:
                 t = t[3][0]
-            ok = t[0] == "call" and t[1] == "slice::chunks" and t[3][1] == ("mem", "A1.order", ("e",), None) \
+            ok = t[0] == "call" and t[1] in ("slice::chunks", "slice::chunks_exact") and t[3][1] == ("mem", "A1.order", ("e",), None) \
                 and strip_ref(t[3][0])[0] == "at" and strip_ref(t[3][0])[1] == "A1.dist"
-        o.check(ok, "DistanceMatrix::eccentricities", "rows-are-chunks", "rows are not dist.chunks(order)")
+            if not ok and t[0] == "agg" and t[1] == "adt" and t[2][0].endswith("ops::range::Range") and \
+                    t[3] == (("const", "usize", 0), ("mem", "A1.order", ("e",), None)):
+                # (0..order).map(|u| row u): the closure reads dist[u * order ..][.. order]
+                for cp in prog.children.get(e, []):
+                    cl = crate.an(cp)
+                    us = set()
+
+                    def walk(x):
+                        if isinstance(x, tuple) and x:
+                            u = is_row_access(x)
+                            if u is not None:
+                                us.add(u)
+                            for y in x:
+                                if isinstance(y, tuple):
+                                    walk(y)
+                    for ev in cl.events:
+                        for k in ("args", "val", "discr", "res"):
+                            v = ev.get(k)
+                            if isinstance(v, (list, tuple)):
+                                walk(tuple(v) if isinstance(v, list) else v)
+                    if us == {("arg", 2)}:
+                        ok = True
+        o.check(ok, "DistanceMatrix::eccentricities", "rows-are-chunks", "rows are not dist.chunks(order) (nor dist[u * order ..][.. order] for u in 0..order)")
     # new(): order^2 cells (checked), all written with `infinity`
     c = ctor_of(crate, S)
     if o.check(c is not None, "DistanceMatrix::new", "exists", "new not found"):
@@ -404,6 +485,11 @@ def rule_layout(crate, prop, tier):
                 rets = [ev for ev in cl.events if ev["k"] == "return"]
                 if cm is not None and len(rets) == 1:
                     filled = any(cv == rets[0]["val"] and pv == ("arg", 2) for pv, cv in cm.valmap)
+        if not filled and not wr and dv is not None and dv[0] == "mem" and dv[3] is None:
+            from .inv import push_loop_len
+            n_ = push_loop_len(crate, can, dv, lb)
+            pus = [ev for ev in can.events if ev["k"] == "call" and ev["key"] == "alloc::vec::Vec::push" and ev["args"][0] == ("addr", dv[1], None)]
+            filled = n_ is not None and len(pus) == 1 and pus[0]["args"][1] == ("arg", 2)
         o.check(filled, "DistanceMatrix::new", "fill-infinity",
                 "cells are not filled with the `infinity` argument")
         from .mem import inventory, discharge_site
@@ -426,22 +512,107 @@ RESTRICTING = {
 }
 
 
+def _all_terms(an):
+    for ev in an.events:
+        for k in ("args", "val", "discr", "res", "cond"):
+            v = ev.get(k)
+            if isinstance(v, list):
+                for x in v:
+                    yield x
+            elif isinstance(v, tuple):
+                yield v
+    for t in an.stmt_terms.values():
+        yield t
+
+
+def _components_used(an_list, R):
+    """which components (0 / 1) of the pair produced by a split_* call are read anywhere"""
+    used = set()
+
+    def walk(t):
+        if isinstance(t, tuple) and t:
+            if t[0] == "field" and len(t) == 3 and t[2] in ("0", "1"):
+                inner = t[1]
+                if inner == R or (inner[0] == "field" and inner[2] == "0" and inner[1][0] == "dc" and inner[1][1] == R):
+                    used.add(t[2])
+            for x in t:
+                if isinstance(x, tuple):
+                    walk(x)
+    for an in an_list:
+        for t in _all_terms(an):
+            walk(t)
+    return used
+
+
+def _row_index_bound_to_all_rows(crate, an, u):
+    """u ranges over every row: it is the parameter of a closure that map / for_each / all / any / flat_map applies to
+    0..order, or the item of a complete `for u in 0..order` loop"""
+    from .closures import capture_map
+    from .mem import complete_scan
+
+    def is_all_rows(d):
+        return d and d != "CYCLE" and d[0] == "agg" and d[1] == "adt" and d[2][0].endswith("ops::range::Range") and \
+            d[3][0] == ("const", "usize", 0) and d[3][1][0] == "mem" and d[3][1][1].endswith(".order")
+    if u == ("arg", 2) and an.f["kind"] == "Closure":
+        cm = capture_map(crate, an)
+        if cm is None:
+            return False
+        pfx = crate.fx(cm.pan.path)
+        for ev in cm.pan.events:
+            if ev["k"] == "call" and len(ev["args"]) == 2 and ev["args"][1] == cm.agg and ev["key"] and ev["key"].split("::")[-1] in (
+                    "map", "for_each", "all", "any", "flat_map", "fold"):
+                d = ev["args"][0]
+                if d[0] == "addr":
+                    d = pfx.iter_desc(ev)
+                return bool(is_all_rows(d))
+        return False
+    from .origin import payload_of
+    site, path = payload_of(u)
+    if site is not None and path == ():
+        fx = crate.fx(an.path)
+        ev = fx.an_call_at(site[1])
+        if ev is not None:
+            return bool(is_all_rows(fx.iter_desc(ev))) and complete_scan(an, fx, ev)
+    return False
+
+
 def restrictions_in(crate, root):
     """calls in the family of `root` that look at only a part of a sequence: restricting iterator adaptors and
-    sub-slicing (indexing with a range other than `..`)"""
+    sub-slicing (indexing with a range other than `..`).  Not counted: split_* whose two parts are both read,
+    chunks_exact(order) on the order*order buffer, and the row access dist[u * order ..][.. order] with u ranging over
+    all of 0..order"""
     out = []
     fam = [root] + [p for p in crate.fn_paths() if crate.prog.fns[p].get("root") == root and p != root]
-    for p in fam:
-        an = crate.an(p)
+    ans = [crate.an(p) for p in fam]
+    for an in ans:
+        row_terms = set()
+        for t in _all_terms(an):
+            def walk(x):
+                if isinstance(x, tuple) and x:
+                    u = is_row_access(x)
+                    if u is not None and _row_index_bound_to_all_rows(crate, an, u):
+                        row_terms.add(x)
+                        row_terms.add(x[3][0])       # the inner [u * order ..] of the two-step form
+                    for y in x:
+                        if isinstance(y, tuple):
+                            walk(y)
+            walk(t)
         for ev in an.events:
             if ev["k"] != "call" or not ev["key"]:
                 continue
+            last = ev["key"].split("::")[-1]
             if ev["key"] in RESTRICTING:
-                out.append((ev, ev["key"].split("::")[-1]))
+                if last in ("split_at", "split_first", "split_last") and _components_used(ans, ev["res"]) == {"0", "1"}:
+                    continue
+                if last == "chunks_exact" and len(ev["args"]) == 2 and ev["args"][1][0] == "mem" and ev["args"][1][1].endswith(".order"):
+                    continue
+                out.append((ev, last))
             if ev["key"] in ("core::ops::index::Index::index", "core::ops::index::IndexMut::index_mut") and ev["fn"]:
                 ta = ev["fn"].get("targs", [])
                 if len(ta) >= 2 and ta[1].get("k") == "adt" and ta[1].get("path", "").startswith("core::ops::range::") \
                         and ta[1].get("name") != "RangeFull":
+                    if ev["res"] in row_terms:
+                        continue
                     out.append((ev, "[" + ta[1]["name"] + "]"))
     return out
 
@@ -540,7 +711,7 @@ def rule_terminate(crate, prop, tier):
     an = crate.an(m)
     fx = crate.fx(m)
     # the visited array: a local Vec<bool>
-    marks = [ev for ev in an.events if ev["k"] == "store" and "#buf" in ev["region"] and const_is(ev["val"], 1)]
+    marks = [ev for ev in an.events if ev["k"] == "store" and const_is(ev["val"], 1) and store_elem(ev)[0] is not None]
     o.check(len(an.cfg.loops) >= 1, who, "loop-exists", "no loop found")
     for h, body in an.cfg.loops.items():
         latches = [pb for pb, _ in an.cfg.pred[h] if an.cfg.dominates(h, pb)]
